@@ -498,6 +498,7 @@ class FnSpec:
         self.sig_only = False
         self.assume = False
         self.notwin = False
+        self.twin_wrap = False
         self.selfty = None
         self.extra = {}
 
@@ -559,7 +560,7 @@ def parse_fn_directive(lines, defaults):
 
     for ln in lines[1:]:
         s = ln.strip()
-        m = re.match(r'(requires|ensures|decreases|head|props|loop\s+\d+|after\s+"[^"]*"(?:\s+\d+)?)\b\s*(.*)$', s)
+        m = re.match(r'(requires|ensures|decreases|head|props|loop\s+\d+|after\s+"[^"]*"(?:\s+\d+)?)(?=\s|$)\s*(.*)$', s)
         if m and (cur is None or not ln.startswith("    ")):
             flush()
             cur = m.group(1)
@@ -682,6 +683,10 @@ def render_fn(idx, fs, table, ctx):
     head_txt = ""
     if fs.head.strip():
         head_txt = fs.head.strip() + "\n"
+    if getattr(fs, "twin_wrap", False):
+        # vacuity guard (DESIGN.md §3.8): the end of the real body must be reachable under requires + hints,
+        # i.e. this assertion has to FAIL; contracts are left untouched so callers are not affected
+        body_txt = "let __twin_r = {\n" + body_txt + "\n};\nproof { assert(false); }\n__twin_r"
     text = sig_txt + contract + "\n{\n" + head_txt + "// ---- verbatim body from expanded.rs:%d (sha256 %s) ----\n" % (
         idx.line_of(it.tb), sha(idx.src(it.tb, it.t1))) + body_txt + "\n}\n"
     table.append({"item": "%s::%s" % (fs.anchor, fs.newname or fs.name), "sha256_orig": sha(orig),
@@ -788,31 +793,18 @@ def render_unit(idx, tmpl_path, root, must_fail=False):
                 j += 1
             block[0] = block[0].strip()
             fs = parse_fn_directive(block, defaults)
-            is_trait_impl = norm(fs.anchor).startswith("impl") and " for " in norm(fs.anchor)
-            twin_copy = False
             if must_fail and not fs.sig_only and not fs.assume and not fs.notwin:
-                if is_trait_impl or norm(fs.anchor).startswith("trait"):
-                    fs.ensures = list(fs.ensures) + ["false"]       # leaf trait-impl methods: in place
-                else:
-                    twin_copy = True
+                fs.twin_wrap = True
             txt = render_fn(idx, fs, table, ctx)
             first = len(out) + 1
             out.extend(txt.split("\n"))
             linemap.append((first, len(out), table[-1]["item"]))
-            if twin_copy:
-                # vacuity guard: a renamed copy of the same real body with `ensures false` added; callers keep
-                # seeing the original contract, so a rejected copy shows the precondition is satisfiable
-                import copy
-                fs2 = copy.deepcopy(fs)
-                fs2.newname = (fs.newname or fs.name) + "__twin"
-                fs2.ensures = list(fs.ensures) + ["false"]
-                scratch = []
-                txt2 = render_fn(idx, fs2, scratch, ctx)
-                first = len(out) + 1
-                out.extend(txt2.split("\n"))
-                linemap.append((first, len(out), table[-1]["item"] + " [twin]"))
-                table[-1]["has_twin"] = True
             i = j + 1
+            continue
+        if s.startswith("//@convert_headers"):
+            nconv, nskip = render_convert_headers(idx, table, linemap, out, defaults.get("props"))
+            out.append("// %d conversion impl headers translated, %d outside this unit (floats, isize/usize)" % (nconv, nskip))
+            i += 1
             continue
         if s.startswith("//@nbits "):
             # R6: `const NBITS: u32 = Self::NBits::U32` with `type NBits = U<k>` in the real impl
@@ -888,23 +880,142 @@ def render_unit(idx, tmpl_path, root, must_fail=False):
                 table.append({"item": item_name, "assumed": True, "sig_only": True, "sha256_orig": sha(idx.src(it.t0, it.t1)),
                               "rules": sorted(rules.fired), "props": fs.props, "src_line": idx.line_of(it.t0)})
             else:
+                init_txt = init
+                if must_fail:
+                    init_txt = "let __twin_r = {\n" + init + "\n};\nproof { assert(false); }\n__twin_r"
                 out.extend(("pub fn %s() -> (r: %s)%s\n{\n%s\n// ---- verbatim initialiser from expanded.rs:%d ----\n%s\n}" % (
-                    cname, ty, contract, fs.head.strip(), idx.line_of(it.t0), init)).split("\n"))
+                    cname, ty, contract, fs.head.strip(), idx.line_of(it.t0), init_txt)).split("\n"))
                 table.append({"item": item_name, "sha256_orig": sha(idx.src(it.t0, it.t1)), "sha256_rewritten": sha(init),
                               "rules": sorted(rules.fired), "props": fs.props, "src_line": idx.line_of(it.t0),
                               "n_requires": 0, "n_ensures": len(fs.ensures), "fn_name": cname})
             linemap.append((first, len(out), item_name))
-            if must_fail and "assume" not in copts:
-                first = len(out) + 1
-                contract2 = "\n    ensures " + ",\n        ".join(list(fs.ensures) + ["false"]) + ","
-                out.extend(("pub fn %s__twin() -> (r: %s)%s\n{\n%s\n%s\n}" % (cname, ty, contract2, fs.head.strip(), init)).split("\n"))
-                linemap.append((first, len(out), item_name + " [twin]"))
-                table[-1]["has_twin"] = True
             i = j + 1
             continue
         out.append(ln)
         i += 1
     return "\n".join(out) + "\n", table, linemap
+
+
+# ------------------------------------------------------------------ R6: typenum where-clause translator (convert.rs)
+
+def _split_top(s, sep=","):
+    """split on `sep` at angle-bracket depth 0"""
+    out, depth, cur = [], 0, []
+    for tok in s.split():
+        if tok == "<":
+            depth += 1
+        elif tok == ">":
+            depth -= 1
+        elif tok == ">>":
+            depth -= 2
+        if tok == sep and depth == 0:
+            out.append(" ".join(cur))
+            cur = []
+        else:
+            cur.append(tok)
+    if cur:
+        out.append(" ".join(cur))
+    return out
+
+
+def _tn_val(t):
+    """value of a typenum type expression as Verus int text"""
+    t = t.strip()
+    m = re.match(r"^U(\d+)$", t)
+    if m:
+        return m.group(1)
+    m = re.match(r"^Diff < (.*) >$", t)
+    if m:
+        a, b = _split_top(m.group(1))
+        return "(%s - %s)" % (_tn_val(a), _tn_val(b))
+    if re.match(r"^\w+$", t):
+        return "%s::U32 as int" % t
+    raise ExtractError("typenum expression not understood: " + t)
+
+
+def translate_where(where):
+    """`A: IsLessOrEqual<B, Output = True>` => val(A) <= val(B);  `A: Sub<B>` => val(B) <= val(A)"""
+    reqs = []
+    for cl in _split_top(where):
+        lhs, rhs = cl.split(" : ", 1)
+        m = re.match(r"^IsLessOrEqual < (.*) , Output = True >$", rhs.strip())
+        if m:
+            reqs.append("%s <= %s" % (_tn_val(lhs), _tn_val(m.group(1))))
+            continue
+        m = re.match(r"^Sub < (.*) >$", rhs.strip())
+        if m:
+            reqs.append("%s <= %s" % (_tn_val(m.group(1)), _tn_val(lhs)))
+            continue
+        raise ExtractError("where-clause not understood: " + cl)
+    return reqs
+
+
+_INTW = {"i8": (True, 8), "i16": (True, 16), "i32": (True, 32), "i64": (True, 64), "i128": (True, 128),
+         "u8": (False, 8), "u16": (False, 16), "u32": (False, 32), "u64": (False, 64), "u128": (False, 128),
+         "bool": (False, 1)}
+
+
+def _conv_type(t):
+    """-> (signed, width, frac text) or None for types outside this unit (floats, isize/usize)"""
+    t = t.strip()
+    m = re.match(r"^Fixed([IU])(\d+) < (\w+) >$", t)
+    if m:
+        fr = m.group(3)
+        mm = re.match(r"^U(\d+)$", fr)
+        return (m.group(1) == "I", int(m.group(2)), mm.group(1) if mm else "%s::U32 as int" % fr)
+    if t in _INTW:
+        return (_INTW[t][0], _INTW[t][1], "0")
+    return None
+
+
+def render_convert_headers(idx, table, linemap, out, props):
+    """One proof obligation per From / LossyFrom impl of `mod convert` between fixed-point types, integers and bool:
+    the translated where-clause (R6) must imply that the conversion cannot overflow (and, for From, loses nothing)."""
+    conv = [c for c in idx.root.children if c.kind == "mod" and c.name == "convert"]
+    if not conv:
+        raise ExtractError("mod convert not found")
+    n = 0
+    skipped = 0
+    for c in conv[0].children:
+        if c.kind != "impl":
+            continue
+        h = c.header.replace(">>", "> >")
+        m = re.match(r"^impl (?:< (.*?) > )?(From|LossyFrom) < (.*) > for (.*?)(?: where (.*))?$", h)
+        if not m:
+            continue
+        gens, trait, src_t, dst_t, where = m.groups()
+        src, dst = _conv_type(src_t), _conv_type(dst_t)
+        if src is None or dst is None:
+            skipped += 1
+            continue
+        reqs = translate_where(where) if where else []
+        gen_txt, bounds = "", []
+        if gens:
+            gl = []
+            for g in _split_top(gens):
+                name, bound = [x.strip() for x in g.split(":")]
+                gl.append("%s: %s" % (name, bound))
+                bounds.append("%s::bound();" % name)
+            gen_txt = "<" + ", ".join(gl) + ">"
+        (ss, ws, fs), (sd, wd, fd) = src, dst
+        body_toks = [t.s for t in idx.toks[c.tb + 1:c.t1]]
+        body_norm = " ".join(t for t in body_toks if t not in ("#", "[", "]", "inline"))
+        n += 1
+        name = "conv_%d" % n
+        first = len(out) + 1
+        ens = "fits(%s, %d, R_conv(b, %s, %s))" % (str(sd).lower(), wd, fs, fd)
+        if trait == "From":
+            ens += ", %s <= %s" % (fs, fd)      # value preserving: no fraction bit is dropped
+        out.append("// %s" % h)
+        out.append("proof fn %s%s(b: int)" % (name, gen_txt))
+        out.append("    requires fits(%s, %d, b)%s" % (str(ss).lower(), ws, "".join(", " + r for r in reqs)))
+        out.append("    ensures %s" % ens)
+        out.append("{ %s lemma_conv_fits(%s, %d, %s, %s, %d, %s, b); }" % (" ".join(bounds), str(ss).lower(), ws, fs, str(sd).lower(), wd, fd))
+        linemap.append((first, len(out), h))
+        table.append({"item": h, "sha256_orig": sha(idx.src(c.t0, c.t1)), "rules": ["R6"], "props": props,
+                      "src_line": idx.line_of(c.t0), "n_requires": len(reqs), "n_ensures": 1, "notwin": True,
+                      "body": body_norm[:160]})
+    return n, skipped
 
 
 if __name__ == "__main__":
